@@ -5,6 +5,7 @@ import copy
 import hashlib
 import os
 import pickle
+import sys
 import traceback
 
 from vf.fuel import FuelExhausted, Meter
@@ -73,9 +74,11 @@ class Crash:
 # .solutions) are emptied - what a caller does who sorts, pops or clears a returned list in place.  Containers that the
 # caller itself passed in are left alone.  A library that hands out containers it still uses (a memoised answer, a
 # work buffer, state shared between two Results) then shows a wrong answer at the public boundary of a later call.
+USER_RECURSION_LIMIT = int(os.environ.get("VERIF_USER_RECURSION_LIMIT", "1000"))  # 0: leave the worker's limit
 _PENDING = []
 SCRIBBLE = os.environ.get("VERIF_NO_SCRIBBLE") != "1"
 SCRIBBLED = [0]
+JUNK = "<caller's own data>"
 
 
 def _plain_containers(x, out, depth=0):
@@ -101,7 +104,15 @@ def _scribble_pending():
             if i in own:
                 continue
             try:
+                # emptied and then used for something else, as a caller would who recycles the list / merges other
+                # data into the dict: a library that still holds the container sees foreign content, not just nothing
                 c.clear()
+                if isinstance(c, list):
+                    c.append(JUNK)
+                elif isinstance(c, dict):
+                    c[JUNK] = JUNK
+                else:
+                    c.add(JUNK)
                 SCRIBBLED[0] += 1
             except Exception:
                 pass
@@ -136,9 +147,22 @@ def call(obs, fn, *args, budget=DEFAULT_BUDGET, what=None, hang_cls="hang", expe
         _scribble_pending()
         if SCRIBBLED[0] > before:
             obs.event("caller.returned-containers-emptied", SCRIBBLED[0] - before)
+    # the interpreter's default recursion limit, counted from here (what a user calling the library from a shallow
+    # stack gets) - not the worker's raised limit, which exists for the oracles: a change that doubles the frames
+    # per search level, or turns a loop into a recursion, shows as RecursionError at sizes the library used to handle
+    old_limit = sys.getrecursionlimit()
+    if USER_RECURSION_LIMIT:
+        depth, f = 0, sys._getframe()
+        while f is not None:
+            depth += 1
+            f = f.f_back
+        sys.setrecursionlimit(depth + USER_RECURSION_LIMIT)
     try:
-        with m:
-            res = fn(*args, **kwargs)
+        try:
+            with m:
+                res = fn(*args, **kwargs)
+        finally:
+            sys.setrecursionlimit(old_limit)
     except FuelExhausted as e:
         obs.fuel_max = max(obs.fuel_max, m.used)
         obs.violate(hang_cls, f"{name}: no return within {budget} steps (at {e})")
